@@ -29,6 +29,11 @@ def spec_histories(res, tier):
         for m in re.finditer(r'<<"HIST", "(.*)">>', r.out):
             js = m.group(1).encode().decode("unicode_escape")
             hists[js] = json.loads(js)
+    # the write-through design (update_pose copies into the array taken at construction) must fail: vacuity guard
+    r = tlc.run("c14", "ColliderLife", cfg="Life_writethrough_FALSE.cfg", workers=4, heap="2g", timeout=3600)
+    res.add_tlc(r)
+    if "Equivalent" not in r.invariant_violated:
+        res.machinery("the write-through storage design did not violate Equivalent in ColliderLife (vacuous model)")
     return list(hists.values())
 
 
@@ -50,7 +55,7 @@ def make(cls, s, unit, T):
     return S.build(s, unit, R, tw, cls)[cls]
 
 
-def construct_from_array(cls, s, unit, arr):
+def construct_from_array(cls, s, unit, arr, cbuf=None):
     """construction that hands the caller's 4x4 array itself to the constructor where the class takes a pose matrix"""
     from distance3d import colliders as C
     k = s["kind"]
@@ -66,7 +71,19 @@ def construct_from_array(cls, s, unit, arr):
         return C.Ellipsoid(arr, unit * np.array([s["a"], s["b"], s["c"]], dtype=float))
     if cls == "MeshGraph":
         return C.MeshGraph(arr, np.ascontiguousarray(np.array(s["V"], dtype=float) * unit), S.hull_triangles(s["V"]))
-    return make(cls, s, unit, arr)       # Sphere, Disk, Ellipse take centre / normal / axes, not a matrix
+    # Sphere, Disk, Ellipse take centre / normal / axes, not a matrix: the centre is handed over as the caller's own contiguous
+    # buffer (a row of a centre table that goes with the pose array), so that colliders constructed "from one array" share it
+    R = np.array(arr[:3, :3], dtype=float)
+    if cbuf is None:
+        return make(cls, s, unit, arr)
+    if cls == "Sphere":
+        return C.Sphere(cbuf, unit * s["r"])
+    if cls == "Disk":
+        return C.Disk(cbuf, unit * s["r"], np.ascontiguousarray(R[:, 2]).copy())
+    if cls == "Ellipse":
+        ref = make(cls, s, unit, arr)
+        return C.Ellipse(cbuf, np.ascontiguousarray(ref.axes).copy(), np.ascontiguousarray(ref.radii).copy())
+    return make(cls, s, unit, arr)
 
 
 FIXED_DIRS = [np.array(v, dtype=float) for v in ((0.3, -0.5, 0.8), (1, 0, 0), (0, -1, 0), (0, 0, 1), (-1, 1, 0), (2, 1, -2))]
@@ -126,12 +143,13 @@ def compare(c, twin, probe, L, rng, probe2=None):
     tick = TOL * L / 8
     out = {"support": 0, "aabb": 0, "center": 0, "first": 0, "pose": 0, "gjk": 0, "alt": 0, "exc": "none"}
     try:
-        if rng.random() < 0.5:        # narrow-phase queries first, so that the support queries below come last
+        queries_first = rng.random() < 0.5
+        if queries_first:             # narrow-phase queries first, so that the support queries below come last
             d1 = gjk.gjk(c, probe)[0]
             d2 = gjk.gjk(twin, probe)[0]
             i1, i2 = gjk.gjk_intersection(c, probe), gjk.gjk_intersection(twin, probe)
             out["gjk"] = ticks(abs(d1 - d2), 1e-5 * L / 8) + (0 if i1 == i2 or min(d1, d2) < 1e-3 * L else 100)
-        out["alt"] = alt_queries(c, twin, probe, probe2, L)
+            out["alt"] = alt_queries(c, twin, probe, probe2, L)
         worst = 0.0
         # a fixed direction list that starts and ends with the same direction: the last query before a pose update
         # and the first query after it ask the same direction
@@ -146,6 +164,11 @@ def compare(c, twin, probe, L, rng, probe2=None):
         out["center"] = ticks(float(np.max(np.abs(np.asarray(c.center()) - np.asarray(twin.center())))), tick)
         out["first"] = ticks(float(np.max(np.abs(np.asarray(c.first_vertex()) - np.asarray(twin.first_vertex())))), tick)
         out["pose"] = ticks(float(np.max(np.abs(np.asarray(c.collider2origin()) - np.asarray(twin.collider2origin())))), tick)
+        if not queries_first:
+            # support queries were the first thing asked (right after a pose update the very direction asked last before it);
+            # the other algorithms follow, and the last support direction is restored for the next observation
+            out["alt"] = alt_queries(c, twin, probe, probe2, L)
+            c.support_function(np.ascontiguousarray(FIXED_DIRS[0], dtype=float))
     except Exception as e:
         out["exc"] = type(e).__name__
     return out
@@ -157,7 +180,13 @@ def replay_history(hid, hist, cls, s, unit, posevals, rng, margin):
     ev = [{"ev": "new", "id": hid}]
     arrays, cols, lastval = {}, {}, {}
     stack = np.zeros((64, 4, 4))            # arrays are items of one pose stack
+    ctable = np.zeros((64, 3))              # the caller's centre table: row k goes with pose array k
+    cent, written = {}, {}
     slot = {}
+
+    def intact():
+        """every array the caller owns still holds what the caller wrote last (the library must not write into them)"""
+        return all(np.array_equal(arrays[a], written[a]) and np.array_equal(cent[a], written[a][:3, 3]) for a in arrays)
     probe = C.Sphere(np.array([0.3, -0.2, 0.1]), 0.5)
     Tp = np.eye(4); Tp[:3, 3] = [-0.4, 0.6, -0.2]
     probe2 = C.Box(Tp, np.array([0.6, 0.4, 0.5]))
@@ -170,16 +199,20 @@ def replay_history(hid, hist, cls, s, unit, posevals, rng, margin):
             if a not in arrays:
                 slot[a] = len(slot)
                 arrays[a] = stack[slot[a]] if len(slot) % 2 else np.zeros((4, 4))     # stack item or stand-alone array
+            if a not in cent:
+                cent[a] = ctable[slot[a]]
             arrays[a][:, :] = posevals[p]                        # (re)written in place by the caller
+            cent[a][:] = posevals[p][:3, 3]
+            written[a] = np.array(posevals[p], dtype=float)
             if op == "construct":
-                obj = construct_from_array(cls, s, unit, arrays[a])
+                obj = construct_from_array(cls, s, unit, arrays[a], cent[a])
                 cols[c] = C.Margin(obj, margin) if margin else obj
             else:
                 try:
                     cols[c].update_pose(arrays[a])
                 except Exception as e:
                     ev.append({"ev": "observe", "id": f"{hid}.{step}", "c": c, "twinPose": p, "support": 0, "aabb": 0, "center": 0,
-                               "first": 0, "pose": 0, "gjk": 0, "alt": 0, "exc": "update_pose:" + type(e).__name__})
+                               "first": 0, "pose": 0, "gjk": 0, "alt": 0, "callerIntact": True, "exc": "update_pose:" + type(e).__name__})
             lastval[c] = p
             ev.append({"ev": op, "id": f"{hid}.{step}", "c": c, "a": a, "p": p})
         else:
@@ -187,7 +220,7 @@ def replay_history(hid, hist, cls, s, unit, posevals, rng, margin):
             if margin:
                 twin = C.Margin(twin, margin)
             o = compare(cols[c], twin, probe, L, rng, probe2)
-            o.update({"ev": "observe", "id": f"{hid}.{step}", "c": c, "twinPose": lastval[c]})
+            o.update({"ev": "observe", "id": f"{hid}.{step}", "c": c, "twinPose": lastval[c], "callerIntact": bool(intact())})
             ev.append(o)
     return ev
 
